@@ -511,6 +511,66 @@ func nestable(oc construct, slot int) bool {
 	return !strings.HasPrefix(oc.Name, "chain")
 }
 
+// ---------------------------------------------------------------- one construct evaluated again, failing only sometimes
+
+// The construct is written once inside a function; the slot raises on the first and third evaluation and yields
+// its ordinary value on the second: every evaluation reports what happens in THAT evaluation (an error or a
+// result remembered per syntax node would show here).
+type againCase struct {
+	Mode  string `json:"mode"` // "again"
+	Outer int    `json:"outer"`
+	Name  string `json:"name"`
+	Slot  int    `json:"slot"`
+}
+
+func (a againCase) src() string {
+	oc := all[a.Outer]
+	fills := make([]string, len(oc.Slots))
+	base := make([]string, len(oc.Slots))
+	for i, d := range oc.Slots {
+		fills[i], base[i] = d, d
+	}
+	fills[a.Slot] = fmt.Sprintf("sometimes(k, %d, %s)", a.Slot, oc.Slots[a.Slot])
+	return "sometimes := {|k, n, d| raise ValueErr.new(\"boom\" + n.S) if k; d}\nf := {|k| " + fill(oc, fills) + "}\n" +
+		"[nil.try.{|u| f(true)}.A, nil.try.{|u| f(false)}.err.S, nil.try.{|u| f(true)}.A, nil.try.{|u| " + fill(oc, base) + "}.err.S]"
+}
+
+func judgeAgain(c *core.Ctx, a againCase, o panrun.Obs) {
+	c.Validated(1)
+	c.Nontrivial(1)
+	if o.Kind == "syntax" {
+		c.HarnessError("again program does not parse: %s: %s", a.src(), o.ErrMsg)
+		return
+	}
+	arr, ok := o.Val.(*object.PanArr)
+	if o.Kind != "value" || !ok || len(arr.Elems) != 4 {
+		c.Outcome("again:" + o.Kind)
+		c.Violation(core.Violation{Key: "evaluated-again/" + a.Name + "/no-result", Case: core.JSON(a), Desc: strings.ReplaceAll(a.src(), "\n", "; "), Expected: "four observations", Observed: o.Short(), Repro: prelude + a.src() + ".p\n"})
+		return
+	}
+	wantErr := fmt.Sprintf("[nil, [ValueErr: boom%d]]", a.Slot)
+	got := []string{arr.Elems[0].Repr(), arr.Elems[1].Repr(), arr.Elems[2].Repr(), arr.Elems[3].Repr()}
+	good := got[0] == wantErr && got[2] == wantErr && got[1] == got[3]
+	c.Outcome(fmt.Sprintf("again:%v", good))
+	if !good {
+		c.Violation(core.Violation{Key: "evaluated-again/" + a.Name, Case: core.JSON(a), Desc: strings.ReplaceAll(a.src(), "\n", "; "),
+			Expected: "[" + wantErr + ", " + got[3] + ", " + wantErr + ", " + got[3] + "]", Observed: "[" + strings.Join(got, ", ") + "]", Repro: prelude + a.src() + ".p\n"})
+	}
+}
+
+func sweepAgain(c *core.Ctx) {
+	tk.Batched(c, 200, prelude, func(emit func(againCase)) {
+		for oi, oc := range all {
+			if oc.Stmt || oc.Fn {
+				continue
+			}
+			for s := range oc.Slots {
+				emit(againCase{Mode: "again", Outer: oi, Name: oc.Name, Slot: s})
+			}
+		}
+	}, func(a againCase) string { return a.src() }, func(a againCase, o panrun.Obs) { judgeAgain(c, a, o) })
+}
+
 func run(c *core.Ctx) {
 	c.Note("constructs", len(all))
 	findLeaky(c)
@@ -533,6 +593,7 @@ func run(c *core.Ctx) {
 		judge(c, t, o, false)
 	})
 	sweepCallbacks(c)
+	sweepAgain(c)
 	raiseKinds(c)
 	cs := cliCases()
 	tk.Sharded(c, len(cs), func(i int) { judgeCLI(c, cs[i]) })
@@ -796,6 +857,18 @@ func replay(c *core.Ctx, raw json.RawMessage) {
 		obs := c.R().Thunks(prelude, []string{cb.src()}, "")
 		c.Eval(1)
 		judgeCallback(c, cb, obs[0])
+		return
+	}
+	var ag againCase
+	if json.Unmarshal(raw, &ag) == nil && ag.Mode == "again" {
+		for i, k := range all {
+			if k.Name == ag.Name {
+				ag.Outer = i
+			}
+		}
+		obs := c.R().Thunks(prelude, []string{ag.src()}, "")
+		c.Eval(1)
+		judgeAgain(c, ag, obs[0])
 		return
 	}
 	var ct cliCase
